@@ -102,6 +102,11 @@ def histories(rng, n, maxsteps):
     for i in range(n):
         k = rng.choice([2, 2, 3, 3, 4])
         live = cf.generated_live(rng, k, t=rng.choice([1, 2, 2, 3]))
+        if i % 3 == 2:
+            # a state deep inside a trimming history, entered directly: an arbitrary arc subset of order 3 with dead-end vertices that
+            # predecessors still point to (the searches behind the scores run into them at every depth)
+            k = 3
+            live = cf.random_live(rng, 3, rng.choice([0.3, 0.45, 0.6]))
         if not live:
             continue
         if k == 4:   # keep the order-4 histories affordable for TLC
